@@ -201,6 +201,22 @@ def cases(tier, seed):
         ["map_self", {"k": "map", "e": a, "m": [[lit(-7), lit(7)]], "default": None}],
     ]
     yield "case/map", prog(tbl, kw, "case/map")
+    # case expressions whose branch values are all temporal literals (their static type is `const` when the condition is)
+    tbl = table_for(("date", "bool", "datetime"), small=True)
+    d, b, ts = cols(("date", "bool", "datetime"))
+    D1, D2 = lit("1999-12-31", "date"), lit("2020-02-29", "date")
+    T1, T2 = lit("1999-12-31T23:59:59", "datetime"), lit("2020-02-29T00:00:00", "datetime")
+    kw = [
+        ["const_cond_date", {"k": "case", "cases": [[lit(True), D1]], "default": lit(None)}],
+        ["const_cond_date_cmp", fn("eq", d, {"k": "case", "cases": [[lit(True), D1]], "default": lit(None)})],
+        ["const_false_dt", {"k": "case", "cases": [[lit(False), T1]], "default": T2}],
+        ["const_cond_dt_cmp", fn("le", ts, {"k": "case", "cases": [[lit(False), T1]], "default": T2})],
+        ["col_cond_dates", {"k": "case", "cases": [[b, D1]], "default": D2}],
+        ["col_cond_dates_cmp", fn("eq", d, {"k": "case", "cases": [[b, D1]], "default": D2})],
+        ["col_cond_dt_max", fn("hmax", ts, {"k": "case", "cases": [[b, T1]], "default": lit(None)})],
+        ["coalesce_date_case", fn("coalesce", {"k": "case", "cases": [[fn("is_null", d), D2]], "default": lit(None)}, d)],
+    ]
+    yield "case/temporal_literals", prog(tbl, kw, "case/temporal literals")
 
 
 def random_nested(tier, seed):
